@@ -27,6 +27,7 @@ type UnitSpec struct {
 	TimeoutS   int      `json:"timeout_s,omitempty"`
 	MaxInline  int      `json:"max_inline,omitempty"`
 	Reveal     bool     `json:"reveal,omitempty"`
+	Paths      bool     `json:"paths,omitempty"`    // path mode (bounded lemmas): fork at branches, never merge
 	Ints       string   `json:"ints,omitempty"`     // "math": Go's int is a mathematical integer in this unit
 	Overflow   bool     `json:"overflow,omitempty"` // with ints=math: obligations that int arithmetic stays in 64 bits
 	Note       string   `json:"note,omitempty"`
@@ -168,11 +169,15 @@ func RunProperty(id, tier string) int {
 				opt.Bounded = fmt.Sprintf("loops unrolled %d times", us.Unroll)
 			}
 		}
+		if us.Bounded != "" {
+			opt.Bounded = us.Bounded // the lemma itself fixes a shape (e.g. lists of length 3)
+		}
 		for _, q := range us.Inline {
 			opt.NoContract[q] = true
 		}
 		SetIntMode(us.Ints == "math")
 		opt.Overflow = us.Overflow
+		opt.Paths = us.Paths
 		if us.Ints == "math" && !us.Overflow {
 			notes.Assumed["int arithmetic treated as mathematical (no overflow obligations) in "+us.Func] = true
 		}
